@@ -34,8 +34,8 @@ CHECKS.update({
         "each Allocate postcondition pins the whole abstract view (outstanding-set' = outstanding-set + {returned block}, and the returned block was NOT outstanding before), Free removes exactly one outstanding block, "
         "the data-structure invariant (bitmap length = number of blocks, computed without wrap-around; no bit above it) is established by the constructors and preserved by every operation, so it holds after every history by induction; "
         "contract-level lemmas show that distinct block indices denote disjoint blocks (IPv4: distinct addresses; IPv6: /page blocks with different bases, for all 129 allocation sizes). "
-        "Lock obligations show every bitmap access happens under the allocator mutex and no exit leaves it held."),
-  note=ALLOC_NOTE, technique="contract-based deductive verification: data-structure invariant + whole-view postconditions + geometry lemmas, VCs over go/ssa discharged by SMT", ref="DESIGN.md section 7 (C04-C07)"),
+        "Lock obligations show every bitmap access happens under the allocator mutex and no exit leaves it held. The allocators.Allocator interface contract relied on by the plugins (abstract set of outstanding blocks: a successful Allocate returns a block that was not outstanding and adds exactly it) is checked against the real (*IPv4Allocator).Allocate / NewIPv4Allocator as refinement obligations."),
+  note=ALLOC_NOTE + " The IPv6 (*Allocator).Allocate is NOT checked against the interface-level view (its own postconditions state the same over the bitmap; the abstraction needs a quantified block/index round-trip fact the solvers do not derive from the opaque definitions).", technique="contract-based deductive verification: data-structure invariant + whole-view postconditions + geometry lemmas, VCs over go/ssa discharged by SMT", ref="DESIGN.md section 7 (C04-C07)"),
  "C05": dict(
   text=("Deductive proof of the postconditions transcribed from the statement: a successful allocation is a block of the pool (IPv4: /32 between start and end inclusive; IPv6: 16-byte base, inside the pool, aligned to the allocation length, "
         "mask length = max(allocation length, length of a 16-byte canonical hint mask), other hints count as none); Allocate fails iff every block is outstanding, then returns ErrNoAddrAvail and changes nothing; the constructors "
@@ -116,9 +116,10 @@ CHECKS.update({
   text=("Deductive proof on the real rangeplugin.(*PluginState).Handler4, for every request and every lease table satisfying the state invariant: a client that already has a binding is answered with exactly that address and the table entry is untouched "
         "(no binding is ever changed or removed: stickiness); an unknown client is bound to an address obtained from exactly one successful Allocate call of this invocation; when Allocate fails the handler returns (nil, stop), changes no binding and consumes nothing, and "
         "this happens only for clients without a binding; known clients consume no allocator block; option 51 carries the configured lease time (rounded as the code rounds it); the handler leaves the plugin mutex released and preserves the state invariant (including: every client has a record object of its own). Every access to the table happens with the mutex held, and the table is HAVOCKED at every acquisition (what other goroutines left there, up to the invariant), so the postconditions hold for concurrent requests as well. "
-        "Restart: setupRange makes exactly one successful Allocate call per loaded record (loop invariant over the map-iteration counter: allocations so far = keys delivered so far) or refuses to start, and establishes the handler's state invariant."),
-  note=SRV_NOTE + (" NOT proved here: that offered addresses lie in the range and that no address is bound to two clients - these follow from the allocator contracts C04/C05 together with the invariant `bound addresses = outstanding blocks`, "
-        "which is not machine-checked (the Allocator interface contract used by the plugin has no abstract view); that the address re-marked at start-up is the stored one (the code compares String() forms: uninterpreted); HardwareAddr.String is an uninterpreted function of the address value; `a range over a map delivers each key exactly once` is the language guarantee built into the iteration counter; setupRange assumes (preserves clause) that opening and reading the database cannot reach the allocator, the database handle field or the allocation counter."),
+        "In range / one client per address: an invariant of the table's mutex (proved at every release and after setupRange, assumed at every acquisition) says that every bound address is an outstanding block of the allocator's abstract view, lies between the pool bounds, and that bound addresses are pairwise different; yiaddr of every reply lies between the pool bounds, which setupRange proves to be the configured start and end. "
+        "This uses the allocators.Allocator interface contract (a successful Allocate returns a block of the pool that was not outstanding and adds exactly it; an IPv4 hint naming a free block of the pool is honoured), which is machine-checked against the real (*IPv4Allocator).Allocate and NewIPv4Allocator through abstraction functions over the bitmap (refinement obligations). "
+        "Restart: setupRange makes exactly one successful Allocate call per loaded record (loop invariant over the map-iteration counter) or refuses to start, every record visited is re-marked at its stored address (invariant over the visited keys), and the handler's state invariant is established."),
+  note=SRV_NOTE + (" Assumed, not proved: the plugin is the only user of its allocator (the abstract view is treated as part of the state the plugin mutex protects: paper argument - unexported field, no other reference created); the bytes of a stored address are never written after the record is created; net.IP.String is injective on IPv4 addresses (dotted quad), which is how setupRange concludes that the block it re-marked is the stored address; HardwareAddr.String is an uninterpreted function of the address value; `a range over a map delivers each key exactly once` is the language guarantee built into the iteration counter; setupRange assumes (preserves clause) that opening and reading the database cannot reach the allocator, the database handle field or the allocation counter."),
   technique="contract-based deductive verification: postconditions over the whole lease map (quantified), state invariant, lock obligations", ref="DESIGN.md section 7 (C02)"),
  "C03": dict(
   text=("Deductive check of three obligations that contracts on /repo code can express. (i) Every row the handler writes must be loadable by loadRecords, i.e. net.ParseMAC accepts the stored text of the hardware address "
